@@ -405,40 +405,36 @@ def applySpansIndexOfMaxIndexed (spans indices values : List Nat) : Except Err (
 
 /-! ### `_filter` forms: write into caller-supplied `dest_array` / `filter_array` -/
 
-/-- `for i in range(len(spans) - 1)` of the `*_filter` kernels; `f cur next = none` is the `next - cur == 0` branch
-    (`filter_array[i] = False`, `dest_array[i]` untouched) -/
-def filterLoop (f : Nat → Nat → Except Err (Option Int)) : List Nat → Nat → List Int → List Bool →
+/-- `for i in range(len(spans) - 1)` of the `*_filter` kernels: `next - cur == 0` writes `filter_array[i] = False`
+    and leaves `dest_array[i]` alone; otherwise `filter_array[i] = True` is written first, then the value `g cur next`
+    is computed (it may raise) and stored in `dest_array[i]`. -/
+def filterLoop (g : Nat → Nat → Except Err Int) : List Nat → Nat → List Int → List Bool →
     Except Err (List Int × List Bool)
   | cur :: next :: rest, i, dest, filt =>
-    match f cur next with
-    | .error e => .error e
-    | .ok none =>
+    if next == cur then
       match setE filt i false "filter_array[i]" with
       | .error e => .error e
-      | .ok filt' => filterLoop f (next :: rest) (i + 1) dest filt'
-    | .ok (some v) =>
+      | .ok filt' => filterLoop g (next :: rest) (i + 1) dest filt'
+    else
       match setE filt i true "filter_array[i]" with
       | .error e => .error e
       | .ok filt' =>
-        match setE dest i v "dest_array[i]" with
+        match g cur next with
         | .error e => .error e
-        | .ok dest' => filterLoop f (next :: rest) (i + 1) dest' filt'
+        | .ok v =>
+          match setE dest i v "dest_array[i]" with
+          | .error e => .error e
+          | .ok dest' => filterLoop g (next :: rest) (i + 1) dest' filt'
   | _, _, dest, filt => .ok (dest, filt)
 
-def liftFilter (g : Nat → Nat → Except Err Int) (cur next : Nat) : Except Err (Option Int) :=
-  if next == cur then .ok none
-  else match g cur next with
-    | .ok v => .ok (some v)
-    | .error e => .error e
-
 def applySpansIndexOfMinFilter (spans : List Nat) (src : List Int) (dest : List Int) (filt : List Bool) :=
-  filterLoop (liftFilter (spanIndexOfMin src)) spans 0 dest filt
+  filterLoop (spanIndexOfMin src) spans 0 dest filt
 def applySpansIndexOfMaxFilter (spans : List Nat) (src : List Int) (dest : List Int) (filt : List Bool) :=
-  filterLoop (liftFilter (spanIndexOfMax src)) spans 0 dest filt
+  filterLoop (spanIndexOfMax src) spans 0 dest filt
 def applySpansIndexOfFirstFilter (spans : List Nat) (dest : List Int) (filt : List Bool) :=
-  filterLoop (liftFilter (fun cur _ => .ok (cur : Int))) spans 0 dest filt
+  filterLoop (fun cur _ => .ok (cur : Int)) spans 0 dest filt
 def applySpansIndexOfLastFilter (spans : List Nat) (dest : List Int) (filt : List Bool) :=
-  filterLoop (liftFilter (fun _ next => .ok ((next : Int) - 1))) spans 0 dest filt
+  filterLoop (fun _ next => .ok ((next : Int) - 1)) spans 0 dest filt
 
 /-! ## Session / Field level -/
 
